@@ -95,8 +95,9 @@
         ((or) #f)
         ((or test) test)
         ((or test1 test2 ...)
-         (let ((x test1))
-           (if x x (or test2 ...))))))
+         ((lambda (x rest) (if x x (rest)))
+          test1
+          (lambda () (or test2 ...))))))
 
 (define-syntax when
       (syntax-rules ()
